@@ -843,6 +843,19 @@ def namespace_rules(ctx, prog, rule_ns, rule_axis, rule_proto):
                "%s matches elements with has_tag_name(%r) by local name only: a foreign-namespace element <ext:%s> placed before the standard one is taken for it" % (s["owner"], s["tag"], s["tag"].strip("<>")),
                where=s["line"])
     ctx.floor(rule_ns, "element lookups in the reader", n, 20, semantic=False)
+    # attributes: Node::attribute("name") only matches attributes without a namespace; walking attributes() and
+    # comparing Attribute::name() matches <e ext:type=".."> as well
+    blind = []
+    for p, f in sorted(prog.fns.items()):
+        for bi, t in f.calls(lambda c, t: c.endswith("Attribute<'a, 'input>::name") or (c.endswith("::name") and "Attribute" in c)):
+            g = f
+            owner = p.split("::{closure")[0]
+            has_ns = any(True for _ in f.calls(lambda c, t: "Attribute" in c and c.endswith("::namespace")))
+            if not has_ns:
+                blind.append((owner, f.file_line(bi)))
+    for owner, line in blind:
+        ctx.ob(rule_ns, "attr-ns-blind/%s" % short(owner), False, "%s selects an attribute by Attribute::name() without looking at its namespace: a foreign attribute such as ext:type is taken for the standard one" % owner, where=line)
+    ctx.ob(rule_ns, "attributes-by-name-only", not blind, "no attribute is selected by iterating attributes() and comparing local names (%d such sites)" % len(blind), nontrivial=False)
     for a in axis_sites(prog):
         ctx.ob(rule_axis, "descendants/%s/%s" % (short(a["fn"]), ",".join(a["tags"])), False,
                "%s searches %s with descendants(): an element of that name nested anywhere below (e.g. inside extension content) is accepted, not only a direct child" % (a["fn"], a["tags"]), where=a["line"])
